@@ -28,13 +28,33 @@ theorem storeStep_ev (env : Nat → Content) (b : BlockData) (s : Shred) (e : Ev
     · exact Or.inr (reconstruct_ev _ _ _ _ h)
 
 theorem addShred_ev (env : Nat → Content) (b : BlockData) (s : Shred) (e : Event)
-    (h : (addShred env b s).2 = .ev e) : e = .firstShred ∨ ∃ i, e = .block i := by
-  unfold addShred at h
+    (h : (addShredCore env b s).2 = .ev e) : e = .firstShred ∨ ∃ i, e = .block i := by
+  unfold addShredCore at h
   split at h
   · simp at h
   · split at h
     · simp at h
     · exact storeStep_ev _ _ _ _ h
+
+/-! the D15 `fix:`: `addShred` is `addShredCore` behind the type check -/
+
+theorem addShred_of_ty (env : Nat → Content) (b : BlockData) (s : Shred) (h : s.ty = true) :
+    addShred env b s = addShredCore env b s := by
+  unfold addShred; simp [h]
+
+theorem addShred_wrongType (env : Nat → Content) (b : BlockData) (s : Shred) (h : s.ty = false) :
+    addShred env b s = (b, .err .wrongType) := by
+  unfold addShred; simp [h]
+
+/-- a shred of the wrong type leaves the slot data alone, sends nothing, flags nobody -/
+theorem addDissem_wrongType (env : Nat → Content) (sd : SlotData) (s : Shred) (hm : sd.misbehaved = false)
+    (h : s.ty = false) : addDissem env sd s = (sd, .err .wrongType, []) := by
+  unfold addDissem
+  cases sd with
+  | mk d r m =>
+    simp only at hm
+    subst hm
+    simp [addShred_wrongType env d s h, isBadErr, evOf]
 
 theorem addDissem_flagged (env : Nat → Content) (sd : SlotData) (s : Shred) (h : sd.misbehaved = true) :
     addDissem env sd s = (sd, .err .invalidShred, []) := by
@@ -43,9 +63,14 @@ theorem addDissem_flagged (env : Nat → Content) (sd : SlotData) (s : Shred) (h
 theorem addDissem_cases (env : Nat → Content) (sd : SlotData) (s : Shred) (h : sd.misbehaved = false) :
     ((addDissem env sd s).1.misbehaved = false ∧ (∀ e ∈ (addDissem env sd s).2.2, e ≠ .invalidBlock)) ∨
     ((addDissem env sd s).1.misbehaved = true ∧ (addDissem env sd s).2.2 = [.invalidBlock]) := by
+  by_cases hty : s.ty = true
+  case neg =>
+    left
+    rw [addDissem_wrongType env sd s h (by simpa using hty)]
+    exact ⟨h, by simp⟩
   unfold addDissem
-  simp only [h, Bool.false_eq_true, if_false]
-  cases hr : addShred env sd.dis s with
+  simp only [h, Bool.false_eq_true, if_false, addShred_of_ty env sd.dis s hty]
+  cases hr : addShredCore env sd.dis s with
   | mk b r =>
     simp only
     by_cases hb : isBadErr r = true
@@ -182,9 +207,9 @@ theorem tryReconstructBlock_complete (b b' : BlockData) (info : BlockInfo)
 
 /-- a `Block` result of `add_shred` always comes out of `try_reconstruct_block` -/
 theorem addShred_block_origin (env : Nat → Content) (b b' : BlockData) (s : Shred) (info : BlockInfo)
-    (h : addShred env b s = (b', .ev (.block info))) :
+    (h : addShredCore env b s = (b', .ev (.block info))) :
     ∃ b1, tryReconstructBlock b1 = (b', .complete info) := by
-  unfold addShred at h
+  unfold addShredCore at h
   split at h
   · simp at h
   · split at h
